@@ -142,7 +142,8 @@ def t_chunk_clock(h):
     real_exec = h.ctx.cfg.overrides['jesse.models.Order.Order.execute']
 
     def execute(i, a, k):
-        times.append(('fill', W.store.f['app'].f['time']))
+        parts = [e for e in W.ev if e[0] == 'partial']
+        times.append(('fill', W.store.f['app'].f['time'], parts[-1][1][2] if parts else None, a[0].f['price']))
         return real_exec(i, a, k)
     h.ctx.cfg.overrides['jesse.models.Order.Order.execute'] = execute
     out = h.outcome(f'{BM}._simulate_price_change_effect_multiple_candles', chunk, 'Sandbox', 'BTC-USDT')
@@ -152,9 +153,20 @@ def t_chunk_clock(h):
     end = ops.arith('+', rows[0].e[0], 120000)
     h.prove(ops.equal(W.store.f['app'].f['time'], end), 'chunk-clock.clock-at-chunk-end-is-the-end-of-the-last-minute')
     g = True
-    for _, tm in times:
-        g = ops.land(g, ops.land(ops.compare('>', tm, rows[0].e[0]), ops.compare('<=', tm, end)))
-        g = ops.land(g, ops.lor(ops.equal(tm, ops.arith('+', rows[0].e[0], 60000)), ops.equal(tm, end)))
+    for _, tm, part, price in times:
+        if not isinstance(part, Vec):
+            g = False
+            break
+        # the clock at a fill is the end of the minute whose partial candle was just published, and that minute is one whose
+        # (gap-extended) range reaches the order's price
+        g = ops.land(g, ops.equal(tm, ops.arith('+', part.e[0], 60000)))
+        reached = False
+        for j, r_ in enumerate(rows):
+            lo, hi = r_.e[4], r_.e[3]
+            if j > 0:
+                lo, hi = ops.vmin(lo, rows[j - 1].e[2]), ops.vmax(hi, rows[j - 1].e[2])
+            reached = ops.lor(reached, ops.land(ops.equal(part.e[0], r_.e[0]), ops.land(ops.compare('<=', lo, price), ops.compare('<=', price, hi))))
+        g = ops.land(g, reached)
     h.prove(g, 'chunk-clock.clock-at-a-fill-is-the-end-of-the-minute-being-matched')
 
 
